@@ -790,3 +790,9 @@ package group
 //@   assert at call Kick group-unlocked: !held(g.mu)
 //@   assert at call Range never-under-range: false
 //@   ensures unlocked: !held(g.mu)
+//@
+//@ func (*Group).Status
+//@   trusted
+//@   why group.go: public status of the group (locks the group's mutex briefly)
+//@   requires nonnil: g != nil
+//@   modifies nothing
